@@ -3,6 +3,7 @@
   transition systems. Core Lean only.
 -/
 import GunYu.Model.ClusterRoute
+import GunYu.Model.ClusterSender
 
 namespace GunYu.ClusterRoute
 
@@ -599,6 +600,10 @@ theorem Inv_step {s s' : St} {e : Ev} (hi : Inv slotOf s)
   | srv n c asking o => exact Inv_srv slotOf hi h
   | recv bid ok => exact Inv_recv slotOf hi h
   | unsent c => exact Inv_unsent slotOf hi h
+  | nodeDown n =>
+    simp only [step] at h
+    injection h with h; subst h
+    exact Inv_same slotOf hi rfl rfl rfl rfl rfl rfl
   | mig m =>
     simp only [step] at h
     split at h
@@ -1049,6 +1054,10 @@ theorem Inv2_step {s s' : St} {e : Ev} (hi : Inv2 s) (h : step slotOf s e = .ok 
   | srv n c asking o => exact Inv2_srv slotOf hi h
   | recv bid ok => exact Inv2_recv hi h
   | unsent c => exact Inv2_unsent hi h
+  | nodeDown n =>
+    simp only [step] at h
+    injection h with h; subst h
+    exact ⟨hi.comp, hi.acked, hi.ackedKnown, hi.owned, hi.ownedH⟩
   | mig m =>
     simp only [step] at h
     split at h
@@ -1682,3 +1691,20 @@ theorem tseqRun_of_B : ∀ (evs : List TEv) (s : TSt), tseqB slotOf s evs = true
 end
 
 end GunYu.ClusterRoute
+
+namespace GunYu.ClusterSender
+
+theorem sendFunc_bound (m : SMode) : ∀ (outs : List (Option SErr)) (r : Nat),
+    (sendFunc m outs r).1 ≤ max 1 (3 - r) := by
+  intro outs
+  induction outs with
+  | nil => intro r; simp [sendFunc]
+  | cons o rest ih =>
+    intro r
+    cases o with
+    | none => simp only [sendFunc]; omega
+    | some e =>
+      have h := ih (r + 1)
+      cases e <;> simp only [sendFunc] <;> (repeat' split) <;> simp_all <;> omega
+
+end GunYu.ClusterSender
